@@ -82,8 +82,8 @@ def moving_average(values:Sequence[float], span:Union[int,Sequence[float]]=None,
 
 #this adds one more check on average but avoids the worst case
 #scenario, which can be common for certain types of experiments.
-def my_bisect_left (c,a,l,h): return l if c[l]  ==a else bisect_left (c,a,l,h)
-def my_bisect_right(c,a,l,h): return h if c[h-1]==a else bisect_right(c,a,l,h)
+def my_bisect_left (c,a,l,h): return l if l<h and c[l]  ==a else bisect_left (c,a,l,h)
+def my_bisect_right(c,a,l,h): return h if l<h and c[h-1]==a else bisect_right(c,a,l,h)
 
 class View:
     __slots__ = ('_data','_select')
